@@ -193,3 +193,30 @@ pub fn main() {
     let h = std::thread::Builder::new().stack_size(8 << 20).name("scenario".into()).spawn(serve).unwrap();
     let _ = h.join();
 }
+
+
+struct Silent;
+impl log::Log for Silent {
+    fn enabled(&self, _: &log::Metadata) -> bool {
+        true
+    }
+    fn log(&self, record: &log::Record) {
+        // evaluate the arguments like a real logger would, discard the text
+        let _ = format!("{}", record.args());
+    }
+    fn flush(&self) {}
+}
+static SILENT: Silent = Silent;
+
+pub fn set_log_level(level: u8) {
+    static ONCE: std::sync::Once = std::sync::Once::new();
+    ONCE.call_once(|| {
+        let _ = log::set_logger(&SILENT);
+    });
+    log::set_max_level(match level {
+        0 => log::LevelFilter::Off,
+        1 => log::LevelFilter::Info,
+        2 => log::LevelFilter::Debug,
+        _ => log::LevelFilter::Trace,
+    });
+}
